@@ -80,6 +80,15 @@ theorem binary_irrev_ode (t kf prod major minor : ℝ) (hkf : 0 < kf) (hminor : 
       (kf * (major - (binaryIrrev t kf prod major minor - prod)) * (minor - (binaryIrrev t kf prod major minor - prod))) t :=
   binaryIrrev_hasDerivAt t kf prod major minor hminor.ne' (binaryIrrev_den_ne t kf major minor hkf hminor hlt ht)
 
+/-- the same when the reactant called `minor` is the more abundant one (`0 < major < minor`): the property quantifies over all
+positive concentrations, only `major = minor` is excluded (0/0 in the source) -/
+theorem binary_irrev_ode_minor_excess (t kf prod major minor : ℝ) (hkf : 0 < kf) (hmajor : 0 < major) (hlt : major < minor)
+    (ht : 0 ≤ t) :
+    HasDerivAt (fun s => binaryIrrev s kf prod major minor)
+      (kf * (major - (binaryIrrev t kf prod major minor - prod)) * (minor - (binaryIrrev t kf prod major minor - prod))) t :=
+  binaryIrrev_hasDerivAt t kf prod major minor (lt_trans hmajor hlt).ne'
+    (binaryIrrev_den_ne_minor_excess t kf major minor hkf hmajor hlt ht)
+
 /-- general form: wherever the denominator of the closed form does not vanish (covers `major < minor` as well) -/
 theorem binary_irrev_ode_general (t kf prod major minor : ℝ) (hminor : minor ≠ 0)
     (hden : major / minor - Real.exp (-kf * t * (major - minor)) ≠ 0) :
@@ -139,8 +148,10 @@ The closed form contains `x7 = atanh(arg)`, `arg = −(fv + 4·k·r)/(√fv·√
 when the initial concentration is below the steady state (`binary_irrev_cstr_domain`).  Outside that region the Python
 functions return nan (numpy) / raise ValueError (math) — recorded as the known finding
 `binary_irrev_cstr:nan-above-steady-state`; the theorems about the initial value are stated under the restriction.
-The two rate equations hold for ANY value of the integration constant `x7`, so the `_ode` theorems need no restriction
-in ℝ (where `Real.artanh` is a total function); they say nothing about the floating-point nan. -/
+`Real.artanh` is a total function in Lean, Python's `atanh` is not: every theorem about `binary_irrev_cstr` therefore carries the
+domain hypothesis `hdom : 2·k·r² + fv·r < fv·fr` (⇔ |arg| < 1, `binary_irrev_cstr_domain`) that the Python needs to return a number
+at all.  (The rate equations happen to hold for any value of the constant `x7`, so the proofs of the `_ode` theorems do not use
+`hdom`; it is stated because outside the domain the real code yields nan / ValueError, not a solution.) -/
 
 /-- exact domain: for positive parameters the `atanh` argument is in (−1, 1) iff `2·k·r² + fv·r < fv·fr`,
 i.e. iff `r` is below the positive root of `2·k·A² + fv·A − fv·fr` (the steady state) -/
@@ -148,16 +159,18 @@ theorem binary_irrev_cstr_domain (k r fr fv : ℝ) (hk : 0 < k) (hr : 0 ≤ r) (
     cstrArg k r fr fv ∈ Set.Ioo (-1) 1 ↔ 2 * k * r ^ 2 + fv * r < fv * fr :=
   cstrArg_mem_Ioo_iff k r fr fv hk hr hfv hfr
 
-/-- reactant: `A' = fv·fr − fv·A − 2·k·A²` for all `t` -/
-theorem binary_irrev_cstr_ode_reactant (t k r p fr fp fv n : ℝ) (hk : 0 < k) (hfv : 0 < fv) (hfr : 0 ≤ fr) :
+/-- reactant: `A' = fv·fr − fv·A − 2·k·A²` for all `t`, inside the domain of the closed form -/
+theorem binary_irrev_cstr_ode_reactant (t k r p fr fp fv n : ℝ) (hk : 0 < k) (_hr : 0 ≤ r) (hfv : 0 < fv) (hfr : 0 ≤ fr)
+    (_hdom : 2 * k * r ^ 2 + fv * r < fv * fr) :
     HasDerivAt (fun s => (binaryIrrevCstr s k r p fr fp fv n).1)
       (fv * fr - fv * (binaryIrrevCstr t k r p fr fp fv n).1 - 2 * k * (binaryIrrevCstr t k r p fr fp fv n).1 ^ 2) t := by
   have hrad : 0 < fv + fr * (8 * k) := by positivity
   simp only [binaryIrrevCstr_eq_with]
   exact cstrWith_fst_hasDerivAt _ _ _ t k r p fr fp fv n hk.ne' (Real.sq_sqrt hfv.le) (Real.sq_sqrt hrad.le)
 
-/-- product: `B' = fv·fp + n·k·A² − fv·B` for all `t` -/
-theorem binary_irrev_cstr_ode_product (t k r p fr fp fv n : ℝ) (hk : 0 < k) (hfv : 0 < fv) (hfr : 0 ≤ fr) :
+/-- product: `B' = fv·fp + n·k·A² − fv·B` for all `t`, inside the domain of the closed form -/
+theorem binary_irrev_cstr_ode_product (t k r p fr fp fv n : ℝ) (hk : 0 < k) (_hr : 0 ≤ r) (hfv : 0 < fv) (hfr : 0 ≤ fr)
+    (_hdom : 2 * k * r ^ 2 + fv * r < fv * fr) :
     HasDerivAt (fun s => (binaryIrrevCstr s k r p fr fp fv n).2)
       (fv * fp + n * k * (binaryIrrevCstr t k r p fr fp fv n).1 ^ 2 - fv * (binaryIrrevCstr t k r p fr fp fv n).2) t := by
   have hrad : 0 < fv + fr * (8 * k) := by positivity
@@ -174,20 +187,90 @@ theorem binary_irrev_cstr_init (k r p fr fp fv n : ℝ) (hk : 0 < k) (hr : 0 ≤
   exact cstrWith_init _ _ k r p fr fp fv n hk.ne' (Real.sqrt_pos.mpr hfv).ne' (Real.sqrt_pos.mpr hrad).ne' _
     ((cstrArg_mem_Ioo_iff k r fr fv hk hr hfv hfr).mpr hdom) (cstrArg_eq k r fr fv hfv hrad)
 
-/-! ## the hypotheses are satisfiable (concrete, non-trivial instances) -/
+/-! ## signature guards
 
-example : (0:ℝ) < 3 ∧ (0:ℝ) < 2 ∧ (1:ℝ) ≤ 4 := by norm_num                      -- dimerization_ode: kf = 3, c = 2, t0 = 1, t = 4
-example : (7:ℝ) + 3 * 11 ≠ 0 := by norm_num                                      -- pseudo_rev_ode: kb = 7, kf = 3, major = 11
-example : (0:ℝ) < 3 ∧ (0:ℝ) < 11 ∧ (11:ℝ) < 13 ∧ (0:ℝ) ≤ 2 := by norm_num        -- binary_irrev_ode: kf = 3, minor = 11, major = 13, t = 2
-example : (0:ℝ) < 3 ∧ (0:ℝ) < 7 ∧ (0:ℝ) ≤ 5 ∧ (0:ℝ) ≤ 11 ∧ (0:ℝ) ≤ 13 := by norm_num  -- binary_rev_ode with non-zero initial product
-example : (0.25:ℝ) + 2 ≠ 0 := by norm_num                                        -- unary_irrev_cstr: fv = 0.25, k = 2
+The value functions above are specialisations of the source (arguments passed explicitly, one backend-independent text).  What a
+specialisation cannot see is pinned here: parameters and defaults (`t0=0`, `P0=1`, `n=1`, `backend=None`), decorators, how the backend
+module is obtained and which of its attributes are called (`be = get_backend(backend)`, `be.exp`, the `atanh` alias), and the code
+not visited.  A source edit that changes any of it opens the guard (the failing-input search then decides whether it matters). -/
 
-example : (0:ℝ) < 2 ∧ (0:ℝ) ≤ 0.1 ∧ (0:ℝ) < 0.25 ∧ (0:ℝ) ≤ 3 ∧ 2 * (2:ℝ) * 0.1 ^ 2 + 0.25 * 0.1 < 0.25 * 3 := by
-  norm_num                                                                        -- binary_irrev_cstr_init: k = 2, r = 0.1, fv = 0.25, fr = 3
+theorem dimerization_irrev_sig_guard : dimerizationIrrevSig =
+    [("t", "<required>"), ("kf", "<required>"), ("initial_C", "<required>"), ("P0", "1"), ("t0", "0"), ("@decorators", ""),
+     ("@args", "t kf initial_C t0"), ("@fixed", ""), ("@objects", ""), ("@warn", ""), ("@backend", ""), ("@skipped", "")] := by rfl
 
-/-- a fully instantiated use of `binary_irrev_ode` (non-zero initial product) -/
+theorem pseudo_irrev_sig_guard : pseudoIrrevSig =
+    [("t", "<required>"), ("kf", "<required>"), ("prod", "<required>"), ("major", "<required>"), ("minor", "<required>"),
+     ("backend", "None"), ("@decorators", ""), ("@args", "t kf prod major minor"), ("@fixed", ""), ("@objects", ""), ("@warn", ""),
+     ("@backend", "get_backend(backend) ; be = get_backend(backend) ; be.exp"), ("@skipped", "")] := by rfl
+
+theorem pseudo_rev_sig_guard : pseudoRevSig =
+    [("t", "<required>"), ("kf", "<required>"), ("kb", "<required>"), ("prod", "<required>"), ("major", "<required>"),
+     ("minor", "<required>"), ("backend", "None"), ("@decorators", ""), ("@args", "t kf kb prod major minor"), ("@fixed", ""),
+     ("@objects", ""), ("@warn", ""), ("@backend", "get_backend(backend) ; be = get_backend(backend) ; be.exp"), ("@skipped", "")] := by rfl
+
+theorem binary_irrev_sig_guard : binaryIrrevSig =
+    [("t", "<required>"), ("kf", "<required>"), ("prod", "<required>"), ("major", "<required>"), ("minor", "<required>"),
+     ("backend", "None"), ("@decorators", ""), ("@args", "t kf prod major minor"), ("@fixed", ""), ("@objects", ""), ("@warn", ""),
+     ("@backend", "get_backend(backend) ; be = get_backend(backend) ; be.exp"), ("@skipped", "")] := by rfl
+
+theorem binary_rev_sig_guard : binaryRevSig =
+    [("t", "<required>"), ("kf", "<required>"), ("kb", "<required>"), ("prod", "<required>"), ("major", "<required>"),
+     ("minor", "<required>"), ("backend", "None"), ("@decorators", ""), ("@args", "t kf kb prod major minor"), ("@fixed", ""),
+     ("@objects", ""), ("@warn", ""), ("@backend", "get_backend(backend) ; be = get_backend(backend) ; be.sqrt ; be.exp"),
+     ("@skipped", "")] := by rfl
+
+theorem unary_irrev_cstr_sig_guard : unaryIrrevCstrSig =
+    [("t", "<required>"), ("k", "<required>"), ("r", "<required>"), ("p", "<required>"), ("fr", "<required>"), ("fp", "<required>"),
+     ("fv", "<required>"), ("backend", "None"), ("@decorators", ""), ("@args", "t k r p fr fp fv"), ("@fixed", ""), ("@objects", ""),
+     ("@warn", ""), ("@backend", "get_backend(backend) ; be = get_backend(backend) ; be.exp"), ("@skipped", "")] := by rfl
+
+theorem binary_irrev_cstr_sig_guard : binaryIrrevCstrSig =
+    [("t", "<required>"), ("k", "<required>"), ("r", "<required>"), ("p", "<required>"), ("fr", "<required>"), ("fp", "<required>"),
+     ("fv", "<required>"), ("n", "1"), ("backend", "None"), ("@decorators", ""), ("@args", "t k r p fr fp fv n"), ("@fixed", ""),
+     ("@objects", ""), ("@warn", ""),
+     ("@backend", "get_backend(backend) ; be = get_backend(backend) ; be.atanh ; be.arctanh ; atanh = be.atanh if hasattr(be, 'atanh') else be.arctanh ; be.cos ; be.sqrt ; be.exp ; be.tanh"),
+     ("@skipped", "")] := by rfl
+
+/-! ## the hypotheses are satisfiable: every theorem family applied to concrete, non-trivial parameters -/
+
+example : HasDerivAt (fun s : ℝ => dimerizationIrrev s 3 2 1) (-2 * 3 * (dimerizationIrrev (4:ℝ) 3 2 1) ^ 2) 4 :=
+  dimerization_ode 4 3 2 1 (by norm_num) (by norm_num) (by norm_num)
+example : dimerizationIrrev (1:ℝ) 3 2 1 = 2 := dimerization_init 3 2 1 (by norm_num)
+
+example : HasDerivAt (fun s : ℝ => pseudoRev s 3 7 5 11 13)
+    (3 * 11 * (13 - (pseudoRev (2:ℝ) 3 7 5 11 13 - 5)) - 7 * pseudoRev (2:ℝ) 3 7 5 11 13) 2 :=
+  pseudo_rev_ode 2 3 7 5 11 13 (by norm_num)
+example : pseudoRev (0:ℝ) 3 7 5 11 13 = 5 := pseudo_rev_init 3 7 5 11 13 (by norm_num)
+
+/-- `binary_irrev_ode` with non-zero initial product -/
 example : HasDerivAt (fun s : ℝ => binaryIrrev s 3 5 13 11)
     (3 * (13 - (binaryIrrev (2:ℝ) 3 5 13 11 - 5)) * (11 - (binaryIrrev (2:ℝ) 3 5 13 11 - 5))) 2 :=
   binary_irrev_ode 2 3 5 13 11 (by norm_num) (by norm_num) (by norm_num) (by norm_num)
+/-- the parameter point of chempy's own test (major = 11 < minor = 13) -/
+example : HasDerivAt (fun s : ℝ => binaryIrrev s 3 0 11 13)
+    (3 * (11 - (binaryIrrev (2:ℝ) 3 0 11 13 - 0)) * (13 - (binaryIrrev (2:ℝ) 3 0 11 13 - 0))) 2 :=
+  binary_irrev_ode_minor_excess 2 3 0 11 13 (by norm_num) (by norm_num) (by norm_num) (by norm_num)
+example : binaryIrrev (0:ℝ) 3 5 13 11 = 5 := binary_irrev_init 3 5 13 11 (by norm_num) (by norm_num)
+
+example : HasDerivAt (fun s : ℝ => binaryRev s 3 7 5 11 13)
+    (3 * (11 - (binaryRev (2:ℝ) 3 7 5 11 13 - 5)) * (13 - (binaryRev (2:ℝ) 3 7 5 11 13 - 5)) - 7 * binaryRev (2:ℝ) 3 7 5 11 13) 2 :=
+  binary_rev_ode 2 3 7 5 11 13 (by norm_num) (by norm_num) (by norm_num) (by norm_num) (by norm_num) (by norm_num)
+example : binaryRev (0:ℝ) 3 7 5 11 13 = 5 :=
+  binary_rev_init 3 7 5 11 13 (by norm_num) (by norm_num) (by norm_num) (by norm_num) (by norm_num)
+
+example : unaryIrrevCstr (0:ℝ) 2 0.1 0.2 3 0.3 0.25 = (0.1, 0.2) := unary_irrev_cstr_init 2 0.1 0.2 3 0.3 0.25 (by norm_num)
+example : HasDerivAt (fun s : ℝ => (unaryIrrevCstr s 2 0.1 0.2 3 0.3 0.25).2)
+    (2 * (unaryIrrevCstr (1:ℝ) 2 0.1 0.2 3 0.3 0.25).1 + 0.25 * (0.3 - (unaryIrrevCstr (1:ℝ) 2 0.1 0.2 3 0.3 0.25).2)) 1 :=
+  unary_irrev_cstr_ode_product 1 2 0.1 0.2 3 0.3 0.25 (by norm_num)
+
+/-- below the steady state: k = 2, r = 0.1, fv = 0.25, fr = 3 (2·2·0.01 + 0.025 < 0.75), n = 2 -/
+example : binaryIrrevCstr (0:ℝ) 2 0.1 0.2 3 0.3 0.25 2 = (0.1, 0.2) :=
+  binary_irrev_cstr_init 2 0.1 0.2 3 0.3 0.25 2 (by norm_num) (by norm_num) (by norm_num) (by norm_num) (by norm_num)
+example : HasDerivAt (fun s : ℝ => (binaryIrrevCstr s 2 0.1 0.2 3 0.3 0.25 2).1)
+    (0.25 * 3 - 0.25 * (binaryIrrevCstr (1:ℝ) 2 0.1 0.2 3 0.3 0.25 2).1 - 2 * 2 * (binaryIrrevCstr (1:ℝ) 2 0.1 0.2 3 0.3 0.25 2).1 ^ 2) 1 :=
+  binary_irrev_cstr_ode_reactant 1 2 0.1 0.2 3 0.3 0.25 2 (by norm_num) (by norm_num) (by norm_num) (by norm_num) (by norm_num)
+/-- the domain criterion decides concrete points: the coordinator's witness of the known finding is outside -/
+example : cstrArg (2:ℝ) 1 0.2 2.5 ∉ Set.Ioo (-1) 1 := by
+  rw [binary_irrev_cstr_domain 2 1 0.2 2.5 (by norm_num) (by norm_num) (by norm_num) (by norm_num)]; norm_num
 
 end ChemModel.C17
